@@ -42,8 +42,11 @@ def wrappers(d: Path):
 
 @st.composite
 def cases(draw):
-    kind = draw(st.sampled_from(["codegen-inject", "codegen-reject", "cc-fail", "ld-fail", "kill-builder", "kill-builder", "kill-builder", "kill-waiter"]))
+    kind = draw(st.sampled_from(["codegen-inject", "codegen-reject", "codegen-visualise", "cc-fail", "ld-fail", "kill-builder", "kill-builder",
+                                 "kill-builder", "kill-waiter"]))
     c = {"kind": kind, "form": draw(st.sampled_from(["mass_p1", "stiff_p1_interval"]))}
+    if kind == "codegen-inject":
+        c["exc"] = draw(st.sampled_from(INJECT_EXC))
     if kind.startswith("kill"):
         c["point"] = draw(st.integers(0, BUILDER_POINTS - 1)) if kind == "kill-builder" else draw(st.integers(1, 3))
         c["followups"] = draw(st.integers(1, 3))
@@ -78,19 +81,25 @@ def evaluate(case, wd):
             return ("no-failed-marker", f"<module>.c.failed was not created: {r['files']}")
         return None
 
-    if kind in ("codegen-inject", "codegen-reject"):
+    if kind == "codegen-visualise" and HAVE_PYGRAPHVIZ:
+        return Outcome("inconclusive", case_id=h, classes=classes + ["pygraphviz-present"])
+    if kind in ("codegen-inject", "codegen-reject", "codegen-visualise"):
         if kind == "codegen-inject":
-            reqs = [{"form": case["form"], "inject": "codegen", "timeout": 3}, {"form": case["form"], "timeout": 3}, {"form": case["form"], "timeout": 3}]
+            reqs = [{"form": case["form"], "inject": "codegen", "inject_exc": case.get("exc", "RuntimeError"), "timeout": 3},
+                    {"form": case["form"], "timeout": 3}, {"form": case["form"], "timeout": 3}]
+        elif kind == "codegen-visualise":
+            # a failure FFCx produces itself after the lock was taken: IR visualisation without pygraphviz
+            reqs = [{"form": case["form"], "visualise": True, "timeout": 3}, {"form": case["form"], "timeout": 3}, {"form": case["form"], "timeout": 3}]
         else:
             reqs = [{"form": "bad_sumfact", "options": {"sum_factorization": True}, "timeout": 3}] * 2
         out, err = sched.run_plain({"cache": cache, "requests": reqs}, d, "seq")
         if out is None:
             return Outcome("harness-error", case_id=h, classes=classes, what=err)
-        bad = common_failure_checks(out[0], ("RuntimeError",))
+        bad = common_failure_checks(out[0], None if kind == "codegen-visualise" else (case.get("exc", "RuntimeError"),))
         if bad:
             return viol(*bad)
         r2 = out[1]
-        if kind == "codegen-inject":
+        if kind in ("codegen-inject", "codegen-visualise"):
             if r2["status"] != "ok" or not r2["compiled"] or not r2["correct"]:
                 return viol("next-request", f"after a failed code generation the same request should build afresh; got {r2}")
             r3 = out[2]
@@ -167,6 +176,15 @@ def evaluate(case, wd):
                    sample={"case": case, "killed_at": killed_tag, "followups": [r.get("status") + ":" + str(r.get("exc", r.get("compiled"))) for r in results]})
 
 
+INJECT_EXC = ["RuntimeError", "ValueError", "KeyError", "AssertionError", "RecursionError", "MemoryError", "TypeError"]
+try:
+    import pygraphviz  # noqa: F401
+
+    HAVE_PYGRAPHVIZ = True
+except Exception:  # noqa: BLE001
+    HAVE_PYGRAPHVIZ = False
+
+
 def shard(shard, nshards, n, tier, seed):
     res = ShardResult()
     with scratch(f"vf-c15-{shard}-") as wd:
@@ -175,7 +193,7 @@ def shard(shard, nshards, n, tier, seed):
         for p in range(BUILDER_POINTS):
             if p % nshards == shard:
                 fixed.append({"kind": "kill-builder", "form": "mass_p1", "point": p, "followups": 2, "concurrent": False})
-        kinds = ["codegen-inject", "codegen-reject", "cc-fail", "ld-fail", "kill-waiter"]
+        kinds = ["codegen-inject", "codegen-reject", "codegen-visualise", "cc-fail", "ld-fail", "kill-waiter"]
         for j, k in enumerate(kinds):
             if (BUILDER_POINTS + j) % nshards == shard:
                 c = {"kind": k, "form": "mass_p1"}
@@ -197,7 +215,7 @@ def shard(shard, nshards, n, tier, seed):
 
 def run(tier: str) -> int:
     run_ = Run(PROP, tier, "fault_enumeration", RULE)
-    n = 1 if tier == "quick" else thorough(8)
+    n = 2 if tier == "quick" else thorough(8)
     for part in run_shards(shard, 16, n=n, tier=tier, seed=verif_seed()):
         run_.merge(part)
     run_.extra["crash_points_enumerated"] = BUILDER_POINTS
